@@ -480,3 +480,75 @@ def r04_6(ctx):
                 ok = p.terminal == "return" and len(up) == 1 and up[0].args[:1] == (Sym("payload"),) and up[0].callee == "app.frame_received"
                 ctx.require(ok, f"gateway-transparent:reset={rname},startup={sname}", f"reset waiter {rname}, start-up waiter {sname}: Gateway.data_received(payload) "
                             f"{p.terminal}s after {[e.brief() for e in up] or 'no upward call'}; the payload must reach the application exactly once", func=f, trace=p.trace(10))
+
+
+@rule("R01.6", ["C01", "C06", "C05"], "T-FUN", floor=4)
+def r01_6(ctx):
+    """The layer between EZSP and ASH submits each frame to the link exactly once: Gateway.send_data(payload) awaits
+    AshProtocol.send_data(payload) once, with that payload, and its outcome is the call's outcome - a normal return, the link's
+    exception (NotAcked / NcpFailure after the retry budget), or cancellation. The link's send is shielded and keeps
+    retransmitting under one frame number; a second submission of the same payload (after a time-out of the caller's wait, say)
+    is a new frame for the NCP, which hands the payload up twice."""
+    repo = ctx.repo
+    f = repo.func(f"{UART}:Gateway.send_data")
+    ctx.fn(f)
+    outs = Outcomes(OK(None), RAISE("NcpFailure"), RAISE("NotAcked"), RAISE("TimeoutError"), RAISE("CancelledError"))
+    px = PX(repo, models=[("self._transport.send_data", outs)], inline=same_class(), cancel=True)
+
+    def setup():
+        return (self_obj(gw_cls(ctx), {"_application": Obj(TypeRef("EZSP"), {}, tag="app"), "_transport": Obj(TypeRef("AshProtocol"), {}, tag="ash")}),
+                {"data": Sym("payload")})
+
+    paths = px.explore(f, setup)
+    ctx.anchor(len(paths) >= 4, "Gateway.send_data outcome paths")
+    for p in paths:
+        ctx.paths += 1
+        subs = [e for e in p.events if e.kind == "await" and e.what.endswith("_transport.send_data")]
+        how = "/".join(str(e.extra)[:22] for e in subs) or "-"
+        if not subs:
+            # cancelled / timed out before the submission: nothing was handed to the link, the call must raise
+            ctx.require(p.terminal == "raise", f"gateway-send:none:{p.terminal}", "Gateway.send_data returns without handing the frame to the link", func=f, trace=p.trace(10))
+            continue
+        bad = None
+        if len(subs) != 1:
+            bad = f"the payload is submitted to the link {len(subs)} times ({how})"
+        elif subs[0].args[:1] != (Sym("payload"),):
+            bad = f"the link is given {subs[0].args!r:.60}, not the caller's payload"
+        else:
+            out = str(subs[0].extra)
+            if out.startswith("raises "):
+                want = out.split()[1]
+                if not (p.terminal == "raise" and getattr(p.value, "cls_name", None) == want):
+                    bad = f"the link's send ends with {want} but Gateway.send_data ends with {p.terminal} {p.value!r}"
+            elif p.terminal != "return":
+                bad = f"the link's send succeeded but Gateway.send_data ends with {p.terminal} {p.value!r}"
+        ctx.require(not bad, f"gateway-send:{how}", f"Gateway.send_data [{how}]: {bad}", func=f, trace=p.trace(12))
+
+
+@rule("R10.4", ["C10"], "T-GATE", floor=2)
+def r10_4(ctx):
+    """A deliberate close stays silent also while a reset is in progress: Gateway.connection_lost releases the reset waiter with a
+    connection error both for a real loss (which it then reports itself, once) and for a deliberate close (exc None, which it does
+    not report) - the waiting EZSP.reset therefore cannot tell the two apart and must let the connection error propagate without
+    issuing a controller-reset request of its own (with an application attached, and whatever the error's class: the synthesised
+    ConnectionResetError, a serial error)."""
+    repo = ctx.repo
+    ez = repo.cls(EZ, "EZSP")
+    f = repo.func(f"{EZ}:EZSP.reset")
+    ctx.fn(f)
+    for exc in ("ConnectionResetError", "SerialException", "OSError"):
+        px = PX(repo, inline=same_class(stop=("handle_callback",)), models=[("self._gw.reset", Outcomes(RAISE(exc)))])
+
+        def setup():
+            return (self_obj(ez, {"_callbacks": {i: Sym(f"cb{i}") for i in range(2)}, "_gw": Obj(TypeRef("Gateway"), {}, tag="gw"),
+                                  "_ezsp_event": Obj(TypeRef("asyncio.Event"), {}, tag="event")}), {})
+
+        for p in px.explore(f, setup):
+            ctx.paths += 1
+            hc = [e for e in p.events if e.kind == "call" and (e.what == "self.handle_callback" or str(e.what).startswith("cb"))]
+            started = [e for e in p.events if e.kind == "call" and e.what == "self._ezsp_event.set"]
+            ok = p.terminal == "raise" and getattr(p.value, "cls_name", None) == exc and not hc and not started
+            ctx.require(ok, f"reset:connection-error:{exc}", f"the gateway reset fails with {exc} (the waiter was released by a connection loss or a deliberate "
+                        f"close): EZSP.reset ends with {p.terminal} {p.value!r}, callbacks {[e.brief() for e in hc]}, EZSP marked running {len(started)}x; it "
+                        "must re-raise, stay stopped and request nothing (the gateway reports real losses itself; a close is not a failure)", func=f,
+                        trace=p.trace(12))
